@@ -50,12 +50,19 @@ def one_trace(exe, args, use_driver=True):
     return res
 
 
+HARNESS_LIMIT = 77  # the instrumented region ran out of space: the run says nothing about the library
+
+
 def failing(res):
+    if res["rc"] == HARNESS_LIMIT:
+        return False
     return res["rc"] != 0 or res["diff"] is not None or bool(res["oracle"])
 
 
 def prop_failing(res):
     """the property itself fails on the real code (oracle fired / the code crashed), not merely the tie"""
+    if res["rc"] == HARNESS_LIMIT:
+        return False
     return res["rc"] != 0 or bool(res["oracle"])
 
 
